@@ -15,7 +15,7 @@ inductive Op where
   | not (o src : Nat)                          -- `o = ~src`
   | fromUll (o v : Nat)
   | fromStr (o : Nat) (str : List Nat) (pos n zeroCh oneCh : Nat)
-  | fromCstr (o : Nat) (buf : List Nat) (n zeroCh oneCh : Nat)
+  | fromCstr (o : Nat) (buf : List Nat) (n zeroCh oneCh : Nat)   -- `buf`: the units readable from the pointer
   -- calls that leave trailing arguments to their defaults (`none` = argument not passed)
   | setD (o pos : Nat)                         -- `set(pos)`: `value` defaulted
   | fromStrD (o : Nat) (str : List Nat) (pos n zeroCh oneCh : Option Nat)
